@@ -26,25 +26,26 @@ var (
 	evOp  = sim.RegisterEv(600, "op")
 	evObs = sim.RegisterEv(601, "observe")
 
-	cNontrivial = simrt.RegisterCounter("nontrivial")
-	cAdd        = simrt.RegisterCounter("op_add_channel")
-	cDisable    = simrt.RegisterCounter("op_disable")
-	cEnable     = simrt.RegisterCounter("op_enable")
-	cObserve    = simrt.RegisterCounter("op_observer_steps")
-	cBadIdx     = simrt.RegisterCounter("fault_out_of_range_or_negative_index")
-	cJunkArgs   = simrt.RegisterCounter("fault_junk_addchannel_arguments")
-	cDupFreq    = simrt.RegisterCounter("fault_duplicate_of_standard_frequency")
-	cZeroFreq   = simrt.RegisterCounter("fault_frequency_zero")
-	cFixedAdd   = simrt.RegisterCounter("probe_addchannel_on_fixed_plan")
-	cCFListChan = simrt.RegisterCounter("probe_cflist_channel_list")
-	cCFListMask = simrt.RegisterCounter("probe_cflist_channel_mask")
-	cJoinAccept = simrt.RegisterCounter("probe_join_accept_wire_roundtrip")
-	cMACClosure = simrt.RegisterCounter("probe_mac_command_closure")
-	cLinkADR    = simrt.RegisterCounter("probe_linkadr_payload_closure")
-	cSixCustom  = simrt.RegisterCounter("probe_more_than_five_custom_channels")
-	cLookup     = simrt.RegisterCounter("probe_lookups")
-	cBeyondPlan = simrt.RegisterCounter("probe_device_set_with_channel_beyond_plan")
-	cBlockOps   = simrt.RegisterCounter("op_whole_block_enable_disable")
+	cNontrivial    = simrt.RegisterCounter("nontrivial")
+	cAdd           = simrt.RegisterCounter("op_add_channel")
+	cDisable       = simrt.RegisterCounter("op_disable")
+	cEnable        = simrt.RegisterCounter("op_enable")
+	cObserve       = simrt.RegisterCounter("op_observer_steps")
+	cBadIdx        = simrt.RegisterCounter("fault_out_of_range_or_negative_index")
+	cJunkArgs      = simrt.RegisterCounter("fault_junk_addchannel_arguments")
+	cDupFreq       = simrt.RegisterCounter("fault_duplicate_of_standard_frequency")
+	cZeroFreq      = simrt.RegisterCounter("fault_frequency_zero")
+	cFixedAdd      = simrt.RegisterCounter("probe_addchannel_on_fixed_plan")
+	cCFListChan    = simrt.RegisterCounter("probe_cflist_channel_list")
+	cCFListMask    = simrt.RegisterCounter("probe_cflist_channel_mask")
+	cJoinAccept    = simrt.RegisterCounter("probe_join_accept_wire_roundtrip")
+	cMACClosure    = simrt.RegisterCounter("probe_mac_command_closure")
+	cLinkADR       = simrt.RegisterCounter("probe_linkadr_payload_closure")
+	cSixCustom     = simrt.RegisterCounter("probe_more_than_five_custom_channels")
+	cLookup        = simrt.RegisterCounter("probe_lookups")
+	cBeyondPlan    = simrt.RegisterCounter("probe_device_set_with_channel_beyond_plan")
+	cBlockOps      = simrt.RegisterCounter("op_whole_block_enable_disable")
+	cStreamClosure = simrt.RegisterCounter("probe_band_outputs_in_one_command_stream")
 )
 
 var names = []band.Name{band.EU868, band.US915, band.AU915, band.AS923, band.AS923_2, band.AS923_3, band.AS923_4,
@@ -89,13 +90,15 @@ func gridFreq(name string, r *sim.Rand) uint32 {
 }
 
 type state struct {
-	name     string
-	b        band.Band
-	m        *spec.Plan
-	std      []band.Channel // initial snapshot of standard channels
-	grid     map[int]bool   // custom channels whose arguments were chosen on the region's grid
-	enabled0 []int          // enabled set of the brand-new band
-	steps    int
+	name       string
+	b          band.Band
+	m          *spec.Plan
+	std        []band.Channel // initial snapshot of standard channels
+	grid       map[int]bool   // custom channels whose arguments were chosen on the region's grid
+	stream     []byte         // the commands of the current closure step, concatenated
+	streamCmds []*lorawan.MACCommand
+	enabled0   []int // enabled set of the brand-new band
+	steps      int
 }
 
 func operator(name band.Name, rep bool, dt lorawan.DwellTime, nOps int, sub uint64) {
@@ -548,6 +551,10 @@ func cmdRoundTrip(up bool, mc *lorawan.MACCommand) (string, error) {
 
 func (st *state) cmd(structure, what string, mc *lorawan.MACCommand) {
 	simrt.Count(cMACClosure)
+	if b, err := mc.MarshalBinary(); err == nil && len(st.stream)+len(b) <= 200 {
+		st.stream = append(st.stream, b...)
+		st.streamCmds = append(st.streamCmds, mc)
+	}
 	var diff string
 	var err error
 	if sim.Guard("panic", func() { diff, err = cmdRoundTrip(false, mc) }) {
@@ -566,6 +573,8 @@ func (st *state) cmd(structure, what string, mc *lorawan.MACCommand) {
 // frequency and DR range, ping-slot frequency and LinkADRReq the band hands
 // out goes through the MAC layer and the wire and must come back unchanged.
 func (st *state) closure(r *sim.Rand) {
+	st.stream, st.streamCmds = nil, nil
+	defer st.streamClosure()
 	b := st.b
 	var key spec.Key
 	r.Fill(key[:])
@@ -690,6 +699,37 @@ func (st *state) closure(r *sim.Rand) {
 			simrt.Count(cLinkADR)
 			pl := pls[k]
 			st.cmd("LinkADRReq", fmt.Sprintf("LinkADRReq payload %+v for device set %v", pl, dev), &lorawan.MACCommand{CID: lorawan.LinkADRReq, Payload: &pl})
+		}
+	}
+}
+
+// streamClosure: what the band handed out in this step, as ONE port-0 command
+// stream (the way a network server sends it), decodes to the same commands.
+func (st *state) streamClosure() {
+	if len(st.streamCmds) < 2 {
+		return
+	}
+	simrt.Count(cStreamClosure)
+	port := uint8(0)
+	phy := lorawan.PHYPayload{MHDR: lorawan.MHDR{MType: lorawan.UnconfirmedDataDown}, MACPayload: &lorawan.MACPayload{
+		FPort: &port, FRMPayload: []lorawan.Payload{&lorawan.DataPayload{Bytes: append([]byte(nil), st.stream...)}}}}
+	var err error
+	if sim.Guard("panic", func() { err = phy.DecodeFRMPayloadToMACCommands() }) {
+		return
+	}
+	if err != nil {
+		simrt.Report("closure:"+st.name+":stream", fmt.Sprintf("%s: command stream %x of band outputs does not decode: %v", st.name, st.stream, err))
+		return
+	}
+	got := phy.MACPayload.(*lorawan.MACPayload).FRMPayload
+	if len(got) != len(st.streamCmds) {
+		simrt.Report("closure:"+st.name+":stream", fmt.Sprintf("%s: command stream %x of %d band outputs decodes into %d commands", st.name, st.stream, len(st.streamCmds), len(got)))
+		return
+	}
+	for i := range got {
+		if g, w := sim.DeepSig(got[i]), sim.DeepSig(st.streamCmds[i]); g != w {
+			simrt.Report("closure:"+st.name+":stream", fmt.Sprintf("%s: command %d of stream %x decodes to %s, encoded %s", st.name, i, st.stream, g, w))
+			return
 		}
 	}
 }
